@@ -294,6 +294,10 @@ def _hip_pipe(job):
     return {'ok': r['ok'], 'error': r['error'], 'value': val}
 
 
+ESCALATION = {f'{prod} Escalation Rate Per Year': 0.001 for prod in ('Electricity', 'Heat', 'Cooling', 'Carbon')}
+ESCALATION.update({f'{prod} Escalation Start Year': 3 for prod in ('Electricity', 'Heat', 'Cooling', 'Carbon')})
+
+
 def pipeline(chk: core.Check, ext, per_family):
     decls = ext['Params']['data']['decls']
     byname = {}
@@ -302,6 +306,7 @@ def pipeline(chk: core.Check, ext, per_family):
     jobs, meta = [], []
     for fam, mk in PIPE_FAMILIES:
         base = mk()
+        base.update(ESCALATION)     # prices that escalate: the published bounds of every schedule parameter must hold then too
         r = geo.run_geophires(base, stages=('read',), want_report=False)
         if 'read' not in r['snaps']:
             continue
